@@ -568,7 +568,7 @@ class _Stop(Exception):
     pass
 
 
-def make_conn(dn):
+def make_conn(dn, pull=False):
     import pywbem
     import requests
 
@@ -583,7 +583,7 @@ def make_conn(dn):
 
         def close(self):
             pass
-    conn = pywbem.WBEMConnection('http://localhost:59988', default_namespace=dn)
+    conn = pywbem.WBEMConnection('http://localhost:59988', default_namespace=dn, use_pull_operations=pull)
     cap = Cap()
     conn.session.mount('http://', cap)
     return conn, cap
@@ -592,9 +592,10 @@ def make_conn(dn):
 HEADER_OK = re.compile(r'\S[^\r\n]*|')       # requests.utils._VALID_HEADER_VALUE_RE_STR (used with fullmatch)
 
 
-def call_real(name, dn, args, kwargs):
-    """run one operation method against a capturing transport: the request it sends, or the local exception"""
-    conn, cap = make_conn(dn)
+def call_real(name, dn, args, kwargs, pull=False):
+    """run one operation method against a capturing transport: the request it sends, or the local exception
+    (`pull` = the connection's use_pull_operations: decides which request an Iter...() method sends first)"""
+    conn, cap = make_conn(dn, pull)
     try:
         r = getattr(conn, name)(*args, **kwargs)
         if name.startswith('Iter'):
@@ -1038,9 +1039,9 @@ def oracle_request(run, name, real, case, feats):
                         {'headers': h, 'body_target': body[:600].decode('utf-8', 'replace')})
 
 
-def req_case(name, dn, args, kwargs):
-    return {'op': name, 'default_namespace': dn, 'args': repr(args)[:3000], 'kwargs': repr(kwargs)[:3000],
-            'pickle': pickled((args, kwargs))}
+def req_case(name, dn, args, kwargs, pull=False):
+    return {'op': name, 'default_namespace': dn, 'use_pull_operations': pull, 'args': repr(args)[:3000],
+            'kwargs': repr(kwargs)[:3000], 'pickle': pickled((args, kwargs))}
 
 
 def part_requests(run, n, n_poison):
@@ -1065,10 +1066,13 @@ def part_requests(run, n, n_poison):
             idx.append(i)
     answers = dict(zip(idx, common.run_driver(PROP, reqs)))
     for i, (name, dn, args, kwargs, model, poison) in enumerate(todo):
-        case = req_case(name, dn, args, kwargs)
+        pull = rng.choice([None, True, False]) if name.startswith('Iter') else False
+        case = req_case(name, dn, args, kwargs, pull)
         feats = features([list(args), kwargs, dn])
-        real = call_real(name, dn, args, kwargs)
+        real = call_real(name, dn, args, kwargs, pull)
         run.count('op:' + name)
+        if name.startswith('Iter'):
+            run.count('iter:use_pull_operations=%s' % pull)
         if 'body' in real:
             run.count('req:sent')
             run.case([name, real['body'][40:400].decode('utf-8', 'replace')], nontrivial=True)
@@ -1288,9 +1292,10 @@ def oracle_only(run):
             name, dn, args, kwargs, _ = gen_request(run, g, gp, ops, sorted(ops), i % 6 == 0)
         except Exception:  # noqa
             continue
-        real = call_real(name, dn, args, kwargs)
+        pull = run.rng.choice([None, True, False]) if name.startswith('Iter') else False
+        real = call_real(name, dn, args, kwargs, pull)
         if 'body' in real:
-            oracle_request(run, name, real, req_case(name, dn, args, kwargs), features([list(args), kwargs, dn]))
+            oracle_request(run, name, real, req_case(name, dn, args, kwargs, pull), features([list(args), kwargs, dn]))
 
 
 def search(run):
@@ -1339,7 +1344,7 @@ def replay(payload):
                 ns = _ns()
                 args = eval(case['args'], ns)      # noqa
                 kwargs = eval(case['kwargs'], ns)  # noqa
-            real = call_real(case['op'], case['default_namespace'], args, kwargs)
+            real = call_real(case['op'], case['default_namespace'], args, kwargs, case.get('use_pull_operations', False))
             if 'body' in real:
                 oracle_request(r, case['op'], real, case, features([list(args), kwargs]))
             elif real.get('exc') is None or real.get('after_send'):
